@@ -62,7 +62,8 @@ def history_harness(core, N1, N2, mode, with_init):
         f1 = [tok.Frame(i, SymBool(z3.Bool("u%d" % i))) for i in range(N1)]
         f2 = tok.sym_frames(N2)
         used = tok.make_tokenizer(core, P, mode, with_init)
-        how = e.choose(4)     # 0: complete list run, 1: generator consumed for j items then dropped, 2: generator closed,
+        how = e.choose(5)     # 4: a later run is in progress when the earlier, partially consumed generator is closed
+        #                       0: complete list run, 1: generator consumed for j items then dropped, 2: generator closed,
         #                       3: both generators requested first, the earlier one consumed (j items) before the later one
         j = None
         try:
@@ -81,7 +82,17 @@ def history_harness(core, N1, N2, mode, with_init):
                         break
                 if how == 2:
                     g.close()
-            again = list(g2) if g2 is not None else used.tokenize(tok.Src(f2))
+            if how == 4:
+                g2 = used.tokenize(tok.Src(f2), generator=True)
+                first = []
+                try:
+                    first.append(next(g2))
+                except StopIteration:
+                    pass
+                g.close()
+                again = first + list(g2)
+            else:
+                again = list(g2) if g2 is not None else used.tokenize(tok.Src(f2))
             fresh = tok.make_tokenizer(core, P, mode, with_init).tokenize(tok.Src(f2))
         except Exception as ex:
             m = e.model()
@@ -126,14 +137,25 @@ def replay_fn(c):
                 g.close()
         def sig(toks):
             return [(s, e, ["2:%d" % f2.index(f) if any(f is g for g in f2) else "1:%d" % f.pos for f in d]) for d, s, e in toks]
-        again = sig(list(g2) if g2 is not None else used.tokenize(oracles.CSource(f2)))
+        if c["how"] == 4:
+            g2 = used.tokenize(oracles.CSource(f2), generator=True)
+            first = []
+            try:
+                first.append(next(g2))
+            except StopIteration:
+                pass
+            g.close()
+            again = sig(first + list(g2))
+        else:
+            again = sig(list(g2) if g2 is not None else used.tokenize(oracles.CSource(f2)))
         fresh = sig(mkt().tokenize(oracles.CSource(f2)))
     except Exception as ex:
         return [("C20: reused tokenizer raises %s" % type(ex).__name__, "%s after first stream '%s': %s" % (tok.describe(c), tok.stream_str(c["first"]), ex))]
     if again == fresh:
         return []
     hist = {0: "a complete run", 1: "a generator consumed for %s items and dropped" % c["consumed"], 2: "a generator consumed for %s items and closed" % c["consumed"],
-            3: "both generators requested up front and %s items of the earlier one consumed first" % c["consumed"]}[c["how"]]
+            3: "both generators requested up front and %s items of the earlier one consumed first" % c["consumed"],
+            4: "a generator consumed for %s items, closed while the second run was in progress (after its first token)" % c["consumed"]}[c["how"]]
     return [("C20: reused tokenizer differs from a fresh one", "%s after %s on '%s': reused %s, fresh %s" % (
         tok.describe(c), hist, tok.stream_str(c["first"]), again, fresh))]
 
